@@ -243,6 +243,20 @@ def run_op2(run):
                                 if recs != exp["recs"][nm]:
                                     msg = "rdop2record: logical records of %s (multi-part records joined) differ from the encoded ones" % nm
                                     break
+                                # skipping a (multi-part) record leaves the reader at the next one: skip record k, read record k+1
+                                for ksk in range(len(exp["recs"][nm]) - 1):
+                                    o2.set_position(nm)
+                                    o2.rdop2nt()
+                                    for _ in range(ksk):
+                                        o2.rdop2record()
+                                    o2.skipop2record()
+                                    rn = o2.rdop2record()
+                                    if rn is None or [int(x) for x in rn] != exp["recs"][nm][ksk + 1]:
+                                        msg = "skipop2record on record %d of %s (%d logical records): the next record read is not record %d" % (
+                                            ksk + 1, nm, len(exp["recs"][nm]), ksk + 2)
+                                        break
+                                if msg:
+                                    break
                                 o2.set_position(nm)
                                 o2.rdop2nt()
                                 hd = o2.rdop2tabheaders()
